@@ -364,7 +364,9 @@ def history_envs(repo):
     filt = L.PyBase("Filter", {"__init__": filter_init,
                                "reset": filter_reset,
                                "update": filter_update})
-    hext = {"np": np_, "hashobj": model_hashobj, "Filter": filt}
+    quiet = {"logging": L.Opaque("logging"), "warnings": L.namespace(
+        "warnings", warn=lambda *a, **k: None), "__name__": "dclab"}
+    hext = {"np": np_, "hashobj": model_hashobj, "Filter": filt, **quiet}
     hext.update(imports(HFILT))
     henv = it.env(HFILT, hext)
 
@@ -382,6 +384,7 @@ def history_envs(repo):
                                   "__init__": lambda obj, *a, **k: None},
                      props=("filter",))
     bext = {"np": np_, "hashobj": model_hashobj, "RTDCBase": rbase,
+            **quiet,
             "dfn": L.namespace("dfn", FLUOR_TRACES=[]),
             "Configuration": L.Opaque("Configuration"),
             "HierarchyFilter": henv.lookup("HierarchyFilter")}
@@ -392,7 +395,7 @@ def history_envs(repo):
                 bext[a.asname or a.name] = L.Opaque(a.name)
     benv = it.env(BASE, bext)
     hcls = benv.lookup("RTDC_Hierarchy")
-    text = {"np": np_, "RTDC_Hierarchy": hcls,
+    text = {"np": np_, "RTDC_Hierarchy": hcls, **quiet,
             "RTDCBase": L.ModelType("RTDCBase", lambda o: True),
             "feat_logic": L.namespace(
                 "feat_logic", feature_exists=lambda f: True,
@@ -2493,10 +2496,9 @@ TWINS = list(TWINS) + [
        "            pall = list(set(pbool + pold))"),
       ("            self._man_root_ids = sorted(all_idx)",
        "            self._man_root_ids = all_idx")]),
-    ("manual indices re-applied only when there are any", BASE,
+    ("manual indices re-applied under a None guard", BASE,
      ("            self.filter.apply_manual_indices(self, manual_pidx)\n",
-      "            if len(manual_pidx):\n"
+      "            if manual_pidx is not None:\n"
       "                self.filter.apply_manual_indices(self, manual_pidx)\n"
-      "            else:\n"
-      "                self.filter.apply_manual_indices(self, [])\n")),
+      )),
 ]
